@@ -488,6 +488,81 @@ Print Assumptions lift_binop_hom_step.
 Print Assumptions chan_binop_wrap_law_mixed.
 Print Assumptions lift_hom_functions_nary.
 
+(* --- round 5: ChannelList METHOD forms (flop over channels and arguments); next(inval) threading --- *)
+(* utils.flop on explicit columns: as many rows as the longest column, row i takes column c at i mod |c| *)
+Theorem flop_rows_law :
+  forall (A : Type) (e d : A) (cols : list (list A)) (i : nat),
+  length (ListAlg.flop_rows e d cols) = List.fold_right (fun c m => Nat.max (length c) m) 0%nat cols
+  /\ ((i < List.fold_right (fun c m => Nat.max (length c) m) 0%nat cols)%nat ->
+      List.nth i (ListAlg.flop_rows e d cols) nil
+      = List.map (fun c : list A => match c with nil => e | cons _ _ => List.nth (Nat.modulo i (length c)) c d end) cols).
+Proof. intros A e d cols i. split; [apply C15_lift.flop_rows_length|apply C15_lift.flop_rows_nth]. Qed.
+
+(* a.clip(lo, hi) / fold / wrap / blend as METHODS of a ChannelList of numbers (ChannelList overrides them with
+   _multichannel_perform): arguments numbers or lists of numbers; the result has as many channels as the LONGEST of
+   the receiver and the arguments, channel i = op a[i mod |a|] arg_1[i mod |arg_1|] ... *)
+Theorem chan_method_narop_wrap_law :
+  forall (g : Lift.op3) (xs : list num) (args : list Lift.obj) (cols : list (list num)),
+  xs <> nil -> List.Forall (fun c : list num => c <> nil) cols ->
+  Lift.first_err args = None -> List.map Lift.as_col args = List.map (List.map Lift.ONum) cols ->
+  let len := List.fold_right (fun (c : list num) m => Nat.max (length c) m) 0%nat (cons xs cols) in
+  exists r : list Lift.obj,
+    Lift.chan_method_narop g (Lift.OSeq ListAlg.KChan (List.map Lift.ONum xs)) args = Lift.OSeq ListAlg.KChan r
+    /\ length r = len
+    /\ forall i : nat, (i < len)%nat ->
+         List.nth i r (Lift.ONum NErr)
+         = Lift.ONum (snd g (List.nth (Nat.modulo i (length xs)) xs NErr)
+                            (List.map (fun c : list num => List.nth (Nat.modulo i (length c)) c NErr) cols)).
+Proof. exact C15_lift.chan_method_narop_wrap_law. Qed.
+
+(* next(op p, inval) = op (next(p, inval)), next(p op q, inval) = next(p, inval) op next(q, inval): the k-th value is
+   computed from the k-th input in EVERY operand (Pfunc operands: value = ienv id k), from any starting offset *)
+Theorem inval_unop :
+  forall (ienv : nat -> nat -> num) (hor : nat) (g : Lift.op1) (id : nat) (m : Lift.pmode) (off : nat), m <> Lift.MPull ->
+  Lift.ipull ienv hor m off (Lift.OUnPat g (Lift.OPfunc id))
+  = Lift.SFin (List.map (fun k : nat => Lift.ONum (snd g (ienv id (off + k)%nat))) (List.seq 0 (hor - off))).
+Proof. exact C15_lift.inval_unop. Qed.
+Theorem inval_binop :
+  forall (ienv : nat -> nat -> num) (hor : nat) (g : Lift.op2) (i j : nat) (m : Lift.pmode) (off : nat), m <> Lift.MPull ->
+  Lift.ipull ienv hor m off (Lift.OBinPat g (Lift.OPfunc i) (Lift.OPfunc j))
+  = Lift.SFin (List.map (fun k : nat => Lift.ONum (snd g (ienv i (off + k)%nat) (ienv j (off + k)%nat))) (List.seq 0 (hor - off))).
+Proof. exact C15_lift.inval_binop. Qed.
+(* embedded: the enclosing pattern threads the inputs; after |pad| values the operator pattern starts with input |pad| *)
+Theorem inval_unop_embedded :
+  forall (ienv : nat -> nat -> num) (hor : nat) (g : Lift.op1) (id : nat) (pad : list num) (m : Lift.pmode) (off : nat),
+  m <> Lift.MPull ->
+  Lift.ipull ienv hor m off (Lift.OPseq (cons (Lift.OPat pad) (cons (Lift.OUnPat g (Lift.OPfunc id)) nil)) 1)
+  = Lift.SFin (app (List.map Lift.ONum pad)
+                   (List.map (fun k : nat => Lift.ONum (snd g (ienv id (off + length pad + k)%nat)))
+                             (List.seq 0 (hor - (off + length pad))))).
+Proof. exact C15_lift.inval_unop_embedded. Qed.
+Theorem inval_narop_embedded :
+  forall (ienv : nat -> nat -> num) (hor : nat) (g : Lift.op3) (i j : nat) (lo : num) (m : Lift.pmode) (off : nat),
+  m <> Lift.MPull ->
+  Lift.ipull ienv hor m off
+    (Lift.OPn (Lift.ONarPat g (Lift.OPfunc i) (cons (Lift.OPfunc j) (cons (Lift.ONum lo) nil))) 1)
+  = Lift.SFin (List.map (fun k : nat => Lift.ONum (snd g (ienv i (off + k)%nat) (cons (ienv j (off + k)%nat) (cons lo nil))))
+                        (List.seq 0 (hor - off))).
+Proof. exact C15_lift.inval_narop_embedded. Qed.
+
+(* ChannelList([5]).clip([0, 6, 2], 9) = [5, 6, 5]: three channels, the receiver wraps around *)
+Example chan_method_example :
+  Lift.chan_method_narop (Lift.SDec, C15_lift.clip_demo) (Lift.OSeq ListAlg.KChan (cons (Lift.ONum (I 5)) nil))
+    (cons (Lift.OSeq ListAlg.KList (cons (Lift.ONum (I 0)) (cons (Lift.ONum (I 6)) (cons (Lift.ONum (I 2)) nil))))
+          (cons (Lift.ONum (I 9)) nil))
+  = Lift.OSeq ListAlg.KChan (cons (Lift.ONum (I 5)) (cons (Lift.ONum (I 6)) (cons (Lift.ONum (I 5)) nil))).
+Proof. vm_compute. reflexivity. Qed.
+(* Pseq([-Pfunc(lambda x: x)]) fed 60, 69, 81 yields -60, -69, -81 *)
+Example inval_example :
+  let ins := cons (I 60) (cons (I 69) (cons (I 81) nil)) in
+  Lift.observe (fun (_ idx : nat) => List.nth idx ins NErr) 3
+    (Lift.OPseq (cons (Lift.OUnPat (Lift.SPy, nneg) (Lift.OPfunc 0)) nil) 1)
+  = Lift.SFin (cons (Lift.ONum (I (-60))) (cons (Lift.ONum (I (-69))) (cons (Lift.ONum (I (-81))) nil))).
+Proof. vm_compute. reflexivity. Qed.
+
+Print Assumptions chan_method_narop_wrap_law.
+Print Assumptions inval_unop_embedded.
+
 (* non-vacuity: the hypotheses are met by concrete arguments and the kernels compute *)
 Example wrap_example : canon (py_wrap (F (7 # 2)) (F (1 # 2)) (F (5 # 2))) = (1, 3, 2)%Z.
 Proof. vm_compute. reflexivity. Qed.
